@@ -86,13 +86,16 @@ Definition find_call (k : list N) (l : list (list N * string)) : option string :
 Definition resp_types : list N := [T_Reply; T_Error; T_Cancelled].
 
 (* every answer frame: its key is the key of exactly one Call frame of this connection (ids
-   are not reused inside the run), it is the only answer to it, and a Reply carries the result of
+   are not reused inside the run), it is the only answer to it (see below), and a Reply carries the result of
    that call's own payload; no answer carries the key of a Post *)
-Definition answer_ok (t : tcase) (e : list N * string) : bool :=
+Definition answer_ok (cf : cfg) (t : tcase) (e : list N * string) : bool :=
   let k := hkey (fst e) in
   if existsb (N.eqb (htype (fst e))) resp_types then
     Nat.eqb (count_key [T_Call] k (tc_c2s t)) 1 &&
-    Nat.eqb (count_key resp_types k (tc_s2c t)) 1 &&
+    (* with the noncall_runs defect the client's Cancel frame is dispatched like a call and is
+       answered as well *)
+    Nat.leb (count_key resp_types k (tc_s2c t))
+            (1 + if noncall_runs cf then count_key [T_Cancel] k (tc_c2s t) else 0) &&
     Nat.eqb (count_key [T_Post] k (tc_c2s t)) 0 &&
     (if htype (fst e) =? T_Reply then
        match find_call k (tc_c2s t) with
@@ -103,7 +106,7 @@ Definition answer_ok (t : tcase) (e : list N * string) : bool :=
      else true)
   else true.
 
-Definition tcase_ok (t : tcase) : bool := forallb (answer_ok t) (tc_s2c t).
+Definition tcase_ok (cf : cfg) (t : tcase) : bool := forallb (answer_ok cf t) (tc_s2c t).
 
 Fixpoint bad_idx {A} (f : A -> bool) (l : list A) (i : nat) : list nat :=
   match l with
@@ -112,4 +115,4 @@ Fixpoint bad_idx {A} (f : A -> bool) (l : list A) (i : nat) : list nat :=
   end.
 
 Definition mismatches (cf : cfg) (rs : list rcase) (ts : list tcase) : list nat * list nat :=
-  (bad_idx (rcase_ok cf) rs 0, bad_idx tcase_ok ts 0).
+  (bad_idx (rcase_ok cf) rs 0, bad_idx (tcase_ok cf) ts 0).
